@@ -524,7 +524,7 @@ def check_token(case, ctx):
                 # (in a multi-value position the driver's %(name)s scan can also match across two renderings of the value)
                 # pymssql substitutes %(name)s inside literals and offers no escape: driver limitation, out of scope
                 v = v.replace("%(", "%{")
-            if pos == "offset" and flavor == "sqlite" and mode == "lb" and not pinned:
+            if False and pos == "offset" and flavor == "sqlite" and mode == "lb" and not pinned:  # repaired in /repo (fix: dc0a8c5): generated again
                 ctx.exclude("sqlite OFFSET without LIMIT under literal_binds (known finding C05/sqlite-offset-no-limit)")
                 continue
             if pos == "returning" and mode == "lb" and not pinned:
